@@ -11,8 +11,10 @@ variable [Rules]
 /-- an object (not a function) that is a definition of the name `s` -/
 def dataDefOf (s : Sym) (o : Obj) : Bool := !o.isFunction && o.isDefinition && o.sym == s
 
+omit [Rules] in
 theorem tyBlind_dataDefOf (s : Sym) : TyBlind (dataDefOf s) := fun _ _ => rfl
 
+omit [Rules] in
 theorem emitDataVar_sym {fc : Bool} {o : Obj} {e : SymEntry} (h : emitDataVar fc o = some e) : e.sym = o.sym := by
   unfold emitDataVar at h
   split at h
@@ -23,11 +25,13 @@ theorem emitDataVar_sym {fc : Bool} {o : Obj} {e : SymEntry} (h : emitDataVar fc
       · cases h; rfl
       · cases h; rfl
 
+omit [Rules] in
 theorem emitDataVar_isSome (fc : Bool) (o : Obj) : (emitDataVar fc o).isSome = (!o.isFunction && o.isDefinition) := by
   unfold emitDataVar
   cases hf : o.isFunction <;> cases hd : o.isDefinition <;> simp
   all_goals (split <;> try split) <;> rfl
 
+omit [Rules] in
 /-- the entries `emit_data` prints for `s` are as many as there are definitions of `s` in the list it walks -/
 theorem emitDataVar_count (fc : Bool) (s : Sym) : ∀ l : List Obj,
     ((l.filterMap (emitDataVar fc)).filter (fun e => e.sym == s)).length = (l.filter (dataDefOf s)).length
@@ -50,10 +54,12 @@ theorem emitDataVar_count (fc : Bool) (s : Sym) : ∀ l : List Obj,
       simp only [List.filter, hd]
       split <;> simp [ih]
 
+omit [Rules] in
 /-- an object without owner is never skipped by the repaired `emit_data` -/
 theorem ownerLive_of_noOwner (gs : List Obj) {o : Obj} (h : o.owner = none) : ownerLive gs o = true := by
   simp [ownerLive, h]
 
+omit [Rules] in
 /-- the definitions of a name whose objects have no owner (file-scope objects) all reach the printing loop -/
 theorem filter_ownerLive_dataDefOf (gs : List Obj) {s : Sym} : ∀ (l : List Obj), (∀ o, o ∈ l → o.sym = s → o.owner = none) →
     (l.filter (ownerLive gs)).filter (dataDefOf s) = l.filter (dataDefOf s)
@@ -68,11 +74,13 @@ theorem filter_ownerLive_dataDefOf (gs : List Obj) {s : Sym} : ∀ (l : List Obj
       have ho := ownerLive_of_noOwner gs (h a List.mem_cons_self hs)
       simp [List.filter, hd, ho, ih]
 
+omit [Rules] in
 theorem emitData_count (fc : Bool) (s : Sym) (l : List Obj) (h : ∀ o, o ∈ l → o.sym = s → o.owner = none) :
     ((emitData fc l).filter (fun e => e.sym == s)).length = (l.filter (dataDefOf s)).length := by
   unfold emitData
   rw [emitDataVar_count, filter_ownerLive_dataDefOf l l h]
 
+omit [Rules] in
 theorem length_filter_split (p q : Obj → Bool) : ∀ l : List Obj,
     (l.filter p).length = (l.filter (fun o => p o && q o)).length + (l.filter (fun o => p o && !q o)).length
   | [] => rfl
@@ -80,6 +88,7 @@ theorem length_filter_split (p q : Obj → Bool) : ∀ l : List Obj,
     have ih := length_filter_split p q as
     cases hp : p a <;> cases hq : q a <;> simp [List.filter, hp, hq, ih] <;> omega
 
+omit [Rules] in
 theorem length_filter_le_of_imp {p q : Obj → Bool} (h : ∀ o, p o = true → q o = true) : ∀ l : List Obj,
     (l.filter p).length ≤ (l.filter q).length
   | [] => Nat.le_refl _
@@ -90,12 +99,14 @@ theorem length_filter_le_of_imp {p q : Obj → Bool} (h : ∀ o, p o = true → 
     · have hq := h a hp
       simp [List.filter, hp, hq, ih]
 
+omit [Rules] in
 theorem filter_filter' (p q : Obj → Bool) : ∀ l : List Obj, (l.filter q).filter p = l.filter (fun o => p o && q o)
   | [] => rfl
   | a :: as => by
     have ih := filter_filter' p q as
     cases hp : p a <;> cases hq : q a <;> simp [List.filter, hp, hq, ih]
 
+omit [Rules] in
 theorem scanPure_sub (all : List Obj) : ∀ (l : List Obj) (x : Obj), x ∈ scanPure all l → x ∈ l := by
   intro l
   induction l with
@@ -124,6 +135,7 @@ structure NameOK (gs : List Obj) (s : Sym) : Prop where
   /-- a tentative definition is a definition (parse.c: `is_definition = !extern`, `is_tentative` only if `!extern`) -/
   tentDef : ∀ o, o ∈ gs → o.isTentative = true → o.isDefinition = true
 
+omit [Rules] in
 /-- number of definitions of `s` that `scanPure` keeps -/
 theorem scanPure_count_le_one {gs : List Obj} {s : Sym} (h : NameOK gs s) :
     ((scanPure gs gs).filter (dataDefOf s)).length ≤ 1 := by
@@ -155,6 +167,7 @@ theorem scanPure_count_le_one {gs : List Obj} {s : Sym} (h : NameOK gs s) :
     have := h.oneReal
     omega
 
+omit [Rules] in
 theorem scanPure_count_pos {gs : List Obj} {s : Sym} (h : NameOK gs s) (hex : gs.any (dataDefOf s) = true) :
     1 ≤ ((scanPure gs gs).filter (dataDefOf s)).length := by
   cases hreal : gs.any (realDefOf s)
@@ -192,6 +205,7 @@ theorem scanPure_count_pos {gs : List Obj} {s : Sym} (h : NameOK gs s) (hex : gs
     have : d ∈ (scanPure gs gs).filter (dataDefOf s) := List.mem_filter.mpr ⟨hx, hxd⟩
     exact List.length_pos_of_mem this
 
+omit [Rules] in
 /-- the kept definition is tentative exactly when every definition of the name was -/
 theorem scanPure_kept_tent {gs : List Obj} {s : Sym} {x : Obj} (hx : x ∈ scanPure gs gs) (hs : x.sym = s)
     (hd : x.isDefinition = true) : x.isTentative = true ↔ gs.any (realDefOf s) = false := by
